@@ -1051,7 +1051,43 @@ impl Text {
         }
     }
 
+    /// One accepted source of more than 2^29 bytes (a 512 MiB comment in front of a tiny grammar): the
+    /// bit length of the hashed message no longer fits 32 bits.
+    fn c15_giant(&self, w: &mut Worker) {
+        let n = (1usize << 29) + 12_345;
+        let mut src = String::with_capacity(n + 64);
+        src.push_str("//");
+        let chunk = "x".repeat(1 << 20);
+        while src.len() + chunk.len() <= n {
+            src.push_str(&chunk);
+        }
+        while src.len() < n {
+            src.push('y');
+        }
+        src.push_str("\nstart S\nstruct S\nterminal T {}\n");
+        let (out, _) = kside::generate(&src, 50_000_000);
+        let GenOutcome::Ok(text) = &out else {
+            w.count("not-applicable:giant-source-not-accepted");
+            return;
+        };
+        w.eval();
+        w.count("giant-sources");
+        w.max("max-source-bytes", src.len() as u64);
+        let digest = sha::sha256_hex(src.as_bytes());
+        let found = text.lines().take_while(|l| l.starts_with("//")).any(|l| l == format!("// @sha256 {digest}"));
+        if !found {
+            w.violation(
+                "header-does-not-carry-source-hash:source-larger-than-2^29-bytes",
+                "the leading comment block of the emitted text does not contain `// @sha256 <SHA-256 of the source>`",
+                json!({"source": format!("`//` + {} filler bytes + \"\\nstart S\\nstruct S\\nterminal T {{}}\\n\"", n - 2), "reference_sha256": digest, "emitted_head": text.lines().take(8).collect::<Vec<_>>()}),
+            );
+        }
+    }
+
     fn c15(&self, w: &mut Worker, rng: &mut Rng, n: u64) {
+        if n == 7 {
+            self.c15_giant(w);
+        }
         if n % 3 != 0 {
             // arbitrary texts
             let t = if rng.chance(0.8) {
@@ -1304,7 +1340,7 @@ impl Engine for Text {
             "C12" => "inputs: generated grammars whose struct / enum / terminal declarations carry 0-4 outer attributes each; attribute texts are random over an alphabet of everything but LF (nested brackets of the three kinds, //, #, $, quotes, TAB, CR, U+00A0, U+2028, U+FEFF, 2/3/4-byte characters at any offset incl. directly before the closing bracket, empty #[]), each with a unique marker, followed in the source by nothing / spaces / comments / newlines. One evaluation = one declaration: the lines immediately above `pub struct|enum <Name>` in the emitted text must be byte-for-byte the declaration's attributes in order, no attribute line may precede them, and every marked attribute must occur in the whole emitted text exactly as often as in the source (15 % of the non-empty lists repeat one attribute, directly after itself or elsewhere). Attribute texts also nest brackets 100-70 000 deep (6 %) and draw 6 % of their atoms from a dictionary harvested at run time from kiki's own sources (format placeholders like {node_enum_name}, identifiers). Distinct non-trivial = distinct attribute texts longer than 4 bytes.".into(),
             "C13" => "inputs: generated grammars whose terminals have random payload types from the Kiki type grammar (unit, paths of 1-6 segments, generics nested to depth 8 with 1-4 arguments, unit as argument) written with random whitespace / comments between their tokens. One evaluation = one emitted module: at every use site (terminal enum variant, every struct / variant field of that terminal, node enum variant, try_into_* return type) the emitted type, re-tokenised, must equal the declared token sequence. Distinct non-trivial = distinct type expressions.".into(),
             "C14" => "inputs: sources of every class (accepted grammars incl. the repository examples, conflicting grammars, every validation error, parse errors, lexical errors). One evaluation = one call of generate; every input is run 8 times in one process on 8 fresh threads (fresh SipHash keys per HashMap; run k passes the text as a slice that starts k bytes into a buffer, i.e. at every alignment modulo 8; odd runs go through the batch of 16 inputs backwards and one run calls every input twice in a row, so a dependence on earlier calls is visible), 4 more times on 4 threads running at the same time (each starting at another offset of the batch, one of them also calling get_grammar_hash: state shared between concurrent calls) and once in each of 2 further processes (each with a different build-script-like process environment: OPT_LEVEL, PROFILE, TARGET, LANG ... and every variable kiki's sources read); the bytes of Ok results / the {:?} of errors (positions and attached automaton included) must be identical. A canary HashSet iterated in every run records how many distinct hash orders were actually sampled. Distinct non-trivial = distinct inputs that reach the automaton construction (Ok or TableConflict).".into(),
-            "C15" => "inputs: (a) accepted sources with / without trailing newline, CRLF, non-ASCII, leading comment up to 60 KB: the emitted text must start with a // block containing `// @sha256 ` + the SHA-256 of the source computed by an independent implementation, get_grammar_hash must return exactly that digest, and the build-script freshness test (stored digest == digest of current file) must accept the same text and reject a text differing in one byte; (b) header-like texts assembled from fragments (//, `// @sha256 `, repeated prefixes, CR, CRLF, blank and non-comment lines, Unicode): get_grammar_hash vs the rule in the property statement. One evaluation = one text. Distinct non-trivial = distinct texts.".into(),
+            "C15" => "inputs: (a) accepted sources with / without trailing newline, CRLF, non-ASCII, leading comment up to 60 KB, and ONE source of 2^29 + 12 345 bytes (the bit length of the hashed message exceeds 32 bits): the emitted text must start with a // block containing `// @sha256 ` + the SHA-256 of the source computed by an independent implementation, get_grammar_hash must return exactly that digest, and the build-script freshness test (stored digest == digest of current file) must accept the same text and reject a text differing in one byte; (b) header-like texts assembled from fragments (//, `// @sha256 `, repeated prefixes, CR, CRLF, blank and non-comment lines, Unicode): get_grammar_hash vs the rule in the property statement. One evaluation = one text. Distinct non-trivial = distinct texts.".into(),
             _ => "inputs: sources of every class (accepted, conflicting, every validation error, parse errors, lexical errors - there only the text before the offending lexeme is re-laid-out), each re-joined up to 6 times from the reference lexer's tokens with random separators: nothing where legal, any Unicode whitespace, LF / CRLF, // comments with arbitrary content, comment at the end without newline, everything on one line; every 211th source additionally gets one HUGE run (10^4 .. 10^6 comment lines, blank lines, spaces ...) inserted in one gap, run in a child process; validity of the re-layout (same kinds and texts) is re-checked with the reference lexer. One evaluation = one (source, re-layout) pair: Ok outputs must be identical outside the `// @sha256` line, errors identical after mapping every byte position through the token-start map. Distinct non-trivial = distinct sources with at least one re-layout.".into(),
         }
     }
